@@ -283,10 +283,13 @@ def rough(e, env, mag):
             tl, tr = _txt(l), _txt(r)
             return None if tl is None or tr is None else tl + tr
         if OPPREC[op] == 1:
-            if isinstance(l, Fraction) and isinstance(r, Fraction):
-                return {'eq': l == r, 'ne': l != r, 'lt': l < r, 'gt': l > r, 'le': l <= r, 'ge': l >= r}[op]
-            return None
+            kl, kr = _key(l), _key(r)
+            if kl is None or kr is None:
+                return None
+            return {'eq': kl == kr, 'ne': kl != kr, 'lt': kl < kr, 'gt': kl > kr, 'le': kl <= kr, 'ge': kl >= kr}[op]
         a, b = _num(l), _num(r)
+        if op == 'pow' and b is not None and abs(b) > mag[1]:
+            mag[1] = abs(b)
         if a is None or b is None:
             return None
         if op == 'add':
@@ -302,8 +305,6 @@ def rough(e, env, mag):
         else:
             if b.denominator != 1 or (a == 0 and b < 0):
                 return None
-            if len(mag) > 1 and abs(b) > mag[1]:
-                mag[1] = abs(b)
             if abs(b) * max(a.numerator.bit_length(), a.denominator.bit_length()) > 4000:
                 mag[0] = float('inf')
                 return None
@@ -320,6 +321,16 @@ def _num(v):
         return v
     if isinstance(v, str) and INTTEXT.match(v):
         return Fraction(int(v))
+    return None
+
+
+def _key(v):
+    if isinstance(v, bool):
+        return (2, int(v))
+    if isinstance(v, Fraction):
+        return (0, v)
+    if isinstance(v, str):
+        return (1, v.upper())
     return None
 
 
@@ -371,7 +382,7 @@ class Checker:
         if not buf:
             return
         lines = ['C01\teval\t%d\t%s\t%s' % (seed, w, env_wire(env)) for _, seed, _, w, env in buf]
-        resp = self.ctx.driver.batch(lines)
+        resp = self.ctx.driver.batch(lines, timeout=1200)
         ds = []
         by_env = {}
         for i, ((stream, seed, e, w, env), r) in enumerate(zip(buf, resp)):
